@@ -628,3 +628,75 @@ func mentionsTypeParam(t types.Type, depth int) bool {
 	}
 	return false
 }
+
+// GlobalSliceLen: the length of an unexported package-level slice variable that is assigned exactly once, in the
+// package initialiser, a composite literal (a slice of a freshly allocated array), and whose address is used for
+// nothing but loads: no function of the package (no other package can name it) can give it another length.
+func GlobalSliceLen(g *ssa.Global) (int64, bool) {
+	if g.Pkg == nil || token.IsExported(g.Name()) {
+		return 0, false
+	}
+	if _, ok := g.Type().Underlying().(*types.Pointer).Elem().Underlying().(*types.Slice); !ok {
+		return 0, false
+	}
+	init := g.Pkg.Func("init")
+	if init == nil {
+		return 0, false
+	}
+	funcTabMu.Lock()
+	if funcTabProg != g.Pkg.Prog {
+		funcTabProg, funcTabs, progFuncs = g.Pkg.Prog, map[*ssa.Global]*FuncTable{}, nil
+	}
+	fns := packageFuncs(g.Pkg.Prog)[g.Pkg]
+	funcTabMu.Unlock()
+	var stored ssa.Value
+	for _, fn := range fns {
+		for _, blk := range fn.Blocks {
+			for _, in := range blk.Instrs {
+				uses := false
+				for _, op := range in.Operands(nil) {
+					if *op == ssa.Value(g) {
+						uses = true
+					}
+				}
+				if !uses {
+					continue
+				}
+				switch x := in.(type) {
+				case *ssa.Store:
+					if x.Addr != ssa.Value(g) || fn != init || stored != nil {
+						return 0, false
+					}
+					stored = x.Val
+				case *ssa.UnOp:
+					if x.Op != token.MUL {
+						return 0, false
+					}
+				case *ssa.DebugRef:
+				default:
+					return 0, false
+				}
+			}
+		}
+	}
+	for {
+		ct, ok := stored.(*ssa.ChangeType)
+		if !ok {
+			break
+		}
+		stored = ct.X
+	}
+	sl, ok := stored.(*ssa.Slice)
+	if !ok || sl.Low != nil || sl.High != nil || sl.Max != nil {
+		return 0, false
+	}
+	al, ok := sl.X.(*ssa.Alloc)
+	if !ok {
+		return 0, false
+	}
+	arr, ok := al.Type().Underlying().(*types.Pointer).Elem().Underlying().(*types.Array)
+	if !ok {
+		return 0, false
+	}
+	return arr.Len(), true
+}
